@@ -163,6 +163,7 @@ def parse_domain_name(buffer: typing.BinaryIO) -> str:
     """
     labels = []
     compression_offset = None
+    visited_offsets = set()
     while buffer:
         length = unpack_stream(">B", buffer)[0]
         if length == 0:
@@ -178,6 +179,10 @@ def parse_domain_name(buffer: typing.BinaryIO) -> str:
             new_offset_data = bytearray(buffer.read(1))
             new_offset_data.insert(0, high_bits)
             new_offset = struct.unpack(">H", new_offset_data)[0]
+            # Jumping to the same offset twice means that the pointers form a loop
+            if new_offset in visited_offsets:
+                raise ValueError("domain name compression loop")
+            visited_offsets.add(new_offset)
             # I think it's technically possible to have multiple levels of name
             # compression, so make sure we don't lose the original place we need to go
             # back to.
